@@ -330,6 +330,12 @@ def _corrupt_and_names(ctx, res, M, core, root):
         elif kind == "later_snapshot_other_n":
             m.fractions[-1] = np.ones(n + 3)
             m.orientations[-1] = np.ones((n + 3, 3, 3))
+        elif kind == "all_orientations_other_n":       # consistently wrong: nothing ragged for numpy to trip over
+            k_ = int(rng.choice([-1, 2, 3]))
+            m.orientations = [np.ones((n + k_, 3, 3)) for _ in m.orientations]
+        elif kind == "all_fractions_other_n":
+            k_ = int(rng.choice([-1, 2, 3]))
+            m.fractions = [np.ones(n + k_) for _ in m.fractions]
         elif kind == "later_snapshot_one_grain":      # sizes that numpy would silently broadcast over the grains
             m.fractions[-1] = np.ones(1)
             m.orientations[-1] = np.ones((1, 3, 3))
@@ -341,7 +347,8 @@ def _corrupt_and_names(ctx, res, M, core, root):
 
     kinds = ["extra_fraction_snapshot", "extra_orientation_snapshot", "n_grains_differs", "first_fraction_size",
              "first_orientation_size", "ragged_fraction", "ragged_orientation", "later_snapshot_other_n",
-             "later_snapshot_one_grain", "later_fraction_one_grain", "later_orientation_one_grain"]
+             "later_snapshot_one_grain", "later_fraction_one_grain", "later_orientation_one_grain",
+             "all_orientations_other_n", "all_fractions_other_n"]
     for r in range(n_rounds):
         for kind in kinds:
             m = corrupt(kind)
